@@ -2282,6 +2282,99 @@ fn scenario_b(out: &mut Out, seed: u64, with_fault: bool) {
             }
         }
     }
+    // channels: a producer that also watches for its receiver going away, and a consumer that keeps up. Each round
+    // every idle sender sends one item if it may, every idle receiver takes what has arrived (granting capacity back),
+    // and every sender then polls `receiver_closed`. In the end a sender whose receiver is alive and has taken
+    // everything must be allowed to send: the receiver's remaining capacity is positive and all of it has been
+    // announced to the sender.
+    if !with_fault {
+        let waker = Waker::noop();
+        let mut cx = Context::from_waker(&waker);
+        let mut broken = false;
+        for round in 0..7 {
+            for (ci, app) in apps.iter().enumerate() {
+                if !alive(ci, &results) {
+                    continue;
+                }
+                let mut app = app.borrow_mut();
+                for s in app.senders.iter_mut() {
+                    if let Poll::Ready(Ok(())) = s.poll_send_ready(&mut cx) {
+                        let ck = s.cookie();
+                        let seq = shared.borrow().chan.get(&ck).map(|c| c.sent).unwrap_or(0);
+                        if s.start_send_item(seq).is_ok() {
+                            out.count("B.channel-round-items-sent");
+                            if let Some(c) = shared.borrow_mut().chan.get_mut(&ck) {
+                                c.sent += 1;
+                            }
+                        }
+                    }
+                }
+            }
+            if !ex.settle(&mut rng, true) {
+                broken = true;
+                break;
+            }
+            for (ci, app) in apps.iter().enumerate() {
+                if !alive(ci, &results) {
+                    continue;
+                }
+                let mut app = app.borrow_mut();
+                let check = app.check_calls;
+                let mut bad: Vec<String> = vec![];
+                for r in app.receivers.iter_mut() {
+                    let ck = r.cookie();
+                    while let Poll::Ready(Ok(Some(v))) = r.poll_next_item::<u64>(&mut cx) {
+                        out.count("B.channel-round-items-taken");
+                        if let Some(c) = shared.borrow_mut().chan.get_mut(&ck).filter(|_| check) {
+                            if v != c.received && !c.bad_order {
+                                c.bad_order = true;
+                                bad.push(format!("channel item {} arrived where item {} was due", v, c.received));
+                            }
+                            c.received += 1;
+                        }
+                    }
+                }
+                for b in bad {
+                    app.fails.push(b);
+                }
+            }
+            if !ex.settle(&mut rng, true) {
+                broken = true;
+                break;
+            }
+            for (ci, app) in apps.iter().enumerate() {
+                if !alive(ci, &results) {
+                    continue;
+                }
+                for s in app.borrow_mut().senders.iter_mut() {
+                    let _ = s.poll_receiver_closed(&mut cx);
+                }
+            }
+            trace.push(format!("channel-round {}", round));
+        }
+        if broken {
+            out.fail("C06", "the executor did not become quiescent", &ctx(&trace));
+            return;
+        }
+        let taking: Vec<ChannelCookie> = apps.iter().enumerate().filter(|(ci, _)| alive(*ci, &results))
+            .flat_map(|(_, a)| a.borrow().receivers.iter().map(|r| r.cookie()).collect::<Vec<_>>()).collect();
+        for (ci, app) in apps.iter().enumerate() {
+            if !alive(ci, &results) {
+                continue;
+            }
+            for s in app.borrow_mut().senders.iter_mut() {
+                if !taking.contains(&s.cookie()) {
+                    continue;
+                }
+                out.count("B.channel-round-pairs-checked");
+                if s.poll_send_ready(&mut cx).is_pending() {
+                    let what = format!("client {}: a sender may not send although its receiver is alive, has taken every item and so has granted more capacity than was used ({:?})", ci, s.cookie());
+                    out.fail("C06", &what, &ctx(&trace));
+                    out.fail("C05", &what, &ctx(&trace));
+                }
+            }
+        }
+    }
     // whatever the bus listeners have collected by now: each event matches a filter its listener has had
     if !with_fault {
         let waker = Waker::noop();
@@ -2464,6 +2557,10 @@ fn scenario_b(out: &mut Out, seed: u64, with_fault: bool) {
             // the same observation under the property about bus listeners
             if let Some(rest) = f.strip_prefix("C10 ") {
                 out.fail("C10", &format!("client {}: {}", i, rest), &ctx(&trace));
+            }
+            // and the one about channels
+            if f.starts_with("channel item ") {
+                out.fail("C05", &format!("client {}: {}", i, f), &ctx(&trace));
             }
         }
         for f in app.borrow().app_panics.iter() {
